@@ -16,11 +16,19 @@ pub struct LifeOpts {
     pub max_ports: u64,
     /// 0: random drops during the run, 1: keep everything until the end (pure close/drop ordering scenario)
     pub calm: bool,
+    /// Fault injection: kind ("" = none), direction (1 = A->B, 2 = B->A), frame number.
+    pub fault_kind: &'static str,
+    pub fault_dir: u64,
+    pub fault_at: u64,
+    /// Connection timeout of both endpoints in ms (0 = none).
+    pub timeout_ms: u64,
+    /// Drop listeners early and often (requests cross ListenerFinish).
+    pub ldrop: bool,
 }
 
 impl Default for LifeOpts {
     fn default() -> Self {
-        LifeOpts { connects: 5, cancel: true, defer: 1, data: true, max_ports: 4, calm: false }
+        LifeOpts { connects: 5, cancel: true, defer: 1, data: true, max_ports: 4, calm: false, fault_kind: "", fault_dir: 1, fault_at: 0, timeout_ms: 0, ldrop: false }
     }
 }
 
@@ -90,7 +98,8 @@ fn lst_err(e: &ListenerError) -> &'static str {
     }
 }
 
-pub async fn scenario(seed: u64, opts: &LifeOpts) {
+/// Returns the number of frames emitted per direction.
+pub async fn scenario(seed: u64, opts: &LifeOpts) -> (u64, u64) {
     let mut rng = Rng::new(seed ^ 0x11FE);
     let mut cfg_a = EpCfg::small(&mut rng);
     let mut cfg_b = EpCfg::small(&mut rng);
@@ -99,9 +108,19 @@ pub async fn scenario(seed: u64, opts: &LifeOpts) {
     // messages in this workload are short; keep buffers large enough that data never blocks for long
     cfg_a.rbuf = cfg_a.rbuf.max(8);
     cfg_b.rbuf = cfg_b.rbuf.max(8);
-    tr(json!({"ev": "reset", "seed": seed, "wl": "life", "cfg": [cfg_a.json(), cfg_b.json()]}));
+    cfg_a.timeout_ms = opts.timeout_ms;
+    cfg_b.timeout_ms = opts.timeout_ms;
+    tr(json!({"ev": "reset", "seed": seed, "wl": "life", "cfg": [cfg_a.json(), cfg_b.json()],
+              "fault": {"kind": opts.fault_kind, "dir": opts.fault_dir, "at": opts.fault_at}}));
     install_spawn_policy(seed, opts.defer, 4);
     let mut conn = Conn::establish(&cfg_a, &cfg_b).await;
+    if !opts.fault_kind.is_empty() {
+        let l = if opts.fault_dir == 1 { &conn.ab } else { &conn.ba };
+        let (k, at) = (opts.fault_kind, opts.fault_at);
+        l.set(|st| st.fault_at = Some((at, k)));
+    }
+    let faulty = !opts.fault_kind.is_empty();
+    let mut since_fault_ms = 0u64;
 
     let mut clients: [Option<remoc::chmux::Client>; 2] = [conn.client[0].take(), conn.client[1].take()];
     let mut listeners: [Option<Arc<AMutex<remoc::chmux::Listener>>>; 2] = [
@@ -143,7 +162,11 @@ pub async fn scenario(seed: u64, opts: &LifeOpts) {
             for h in conn.run.iter_mut().flatten() {
                 h.abort();
             }
-            return;
+            return (conn.ab.emitted(), conn.ba.emitted());
+        }
+        let faulted = conn.ab.0.lock().unwrap().faulted || conn.ba.0.lock().unwrap().faulted;
+        if phase == 0 && faulted {
+            phase = 1;
         }
         if phase == 0 && steps > 400 && (connects_left == 0 || steps > 1200 || clients.iter().all(|c| c.is_none())) {
             phase = 1;
@@ -437,8 +460,8 @@ pub async fn scenario(seed: u64, opts: &LifeOpts) {
                 }
             }
             // ---- drop the client or the listener of an endpoint
-            14 if !opts.calm && phase == 0 && rng.chance(1, 12) => {
-                if rng.chance(1, 2) {
+            14 if !opts.calm && phase == 0 && rng.chance(1, if opts.ldrop { 3 } else { 12 }) => {
+                if !opts.ldrop && rng.chance(1, 2) {
                     if clients[e].take().is_some() {
                         tr(json!({"ev": "drop", "ep": ep, "what": "client"}));
                         acted = true;
@@ -464,8 +487,21 @@ pub async fn scenario(seed: u64, opts: &LifeOpts) {
         } else {
             idle += 1;
         }
+        if phase == 1 && opts.timeout_ms > 0 && idle >= 20 && idle % 20 == 0 && faulted && since_fault_ms < 3 * opts.timeout_ms {
+            // nothing moves: let virtual time pass so that the timeout / ping logic can observe a silent fault
+            let step = opts.timeout_ms / 4;
+            tr(json!({"ev": "advance", "ms": step}));
+            tokio::time::advance(std::time::Duration::from_millis(step)).await;
+            since_fault_ms += step;
+            for _ in 0..3 {
+                settle().await;
+            }
+        }
         if phase == 1 && idle >= 80 {
-            let quiet = conn.ab.pending() == 0 && conn.ba.pending() == 0 && ops.iter().all(|o| !o.op.runnable());
+            let quiet = conn.ab.pending() == 0
+                && conn.ba.pending() == 0
+                && ops.iter().all(|o| !o.op.runnable())
+                && (!faulted || opts.timeout_ms == 0 || since_fault_ms >= 3 * opts.timeout_ms);
             if quiet {
                 break;
             }
@@ -473,7 +509,103 @@ pub async fn scenario(seed: u64, opts: &LifeOpts) {
         }
     }
     let pending: Vec<u64> = ops.iter().map(|o| o.op.id).collect();
-    tr(json!({"ev": "quiescent", "pending": pending}));
+    let is_faulted = |c: &Conn| c.ab.0.lock().unwrap().faulted || c.ba.0.lock().unwrap().faulted;
+    tr(json!({"ev": "quiescent", "pending": pending, "settled": is_faulted(&conn) && since_fault_ms >= 3 * opts.timeout_ms}));
+
+    if faulty {
+        // operations issued after the failure must complete (with an error) as well
+        conn.reap().await;
+        let mut late: Vec<LOp> = Vec::new();
+        for (pi, p) in ports.iter().enumerate() {
+            if let Some(tx) = p.tx.clone() {
+                let id = next_op;
+                next_op += 1;
+                tr(json!({"ev": "api_start", "op": id, "ep": p.ep, "kind": "send", "port": p32(p.local), "data": [1, 2, 3], "late": true}));
+                late.push(LOp {
+                    op: Op::new(id, p.ep, async move {
+                        let mut g = tx.lock_owned().await;
+                        R::Send(g.send(Bytes::from_static(&[1, 2, 3])).await.map_err(|e| send_err_class(&e)))
+                    }),
+                    kind: K::Send,
+                    ep: p.ep,
+                    pidx: pi,
+                });
+            }
+        }
+        for e in 0..2 {
+            if let Some(client) = clients[e].clone() {
+                let id = next_op;
+                next_op += 1;
+                tr(json!({"ev": "api_start", "op": id, "ep": e + 1, "kind": "client_connect", "wait": true, "late": true}));
+                late.push(LOp {
+                    op: Op::new(id, e as u64 + 1, async move { R::Conn(client.connect().await.map_err(|e| conn_err(&e))) }),
+                    kind: K::Connect,
+                    ep: e as u64 + 1,
+                    pidx: 0,
+                });
+            }
+            if let Some(l) = listeners[e].clone() {
+                if let Ok(g) = l.try_lock_owned() {
+                    let id = next_op;
+                    next_op += 1;
+                    tr(json!({"ev": "api_start", "op": id, "ep": e + 1, "kind": "accept", "late": true}));
+                    let mut g = g;
+                    late.push(LOp {
+                        op: Op::new(id, e as u64 + 1, async move { R::Acc(g.accept().await.map_err(|e| lst_err(&e))) }),
+                        kind: K::Accept,
+                        ep: e as u64 + 1,
+                        pidx: 0,
+                    });
+                }
+            }
+        }
+        for round in 0..600 {
+            if round % 20 == 19 && is_faulted(&conn) && since_fault_ms < 3 * opts.timeout_ms {
+                let step = opts.timeout_ms / 4;
+                tr(json!({"ev": "advance", "ms": step}));
+                tokio::time::advance(std::time::Duration::from_millis(step)).await;
+                since_fault_ms += step;
+                for _ in 0..3 {
+                    settle().await;
+                }
+            }
+            let mut i = 0;
+            while i < late.len() {
+                if late[i].op.runnable() {
+                    let id = late[i].op.id;
+                    match late[i].op.poll() {
+                        Polled::Pending => i += 1,
+                        Polled::Panicked => {
+                            tr(json!({"ev": "api_panic", "op": id}));
+                            late.swap_remove(i);
+                        }
+                        Polled::Ready(r) => {
+                            late.swap_remove(i);
+                            match r {
+                                R::Conn(Ok(_)) | R::Acc(Ok(Some(_))) | R::Send(Ok(())) => tr(json!({"ev": "api_done", "op": id, "res": "ok", "late": true})),
+                                R::Conn(Err(e)) | R::Acc(Err(e)) | R::Send(Err(e)) => tr(json!({"ev": "api_done", "op": id, "res": "err", "err": e})),
+                                _ => tr(json!({"ev": "api_done", "op": id, "res": "none"})),
+                            }
+                        }
+                    }
+                } else {
+                    i += 1;
+                }
+            }
+            settle().await;
+            conn.ab.deliver();
+            conn.ba.deliver();
+            if late.is_empty() {
+                break;
+            }
+        }
+        let pending: Vec<u64> = late.iter().map(|o| o.op.id).collect();
+        tr(json!({"ev": "quiescent", "pending": pending, "late": true, "settled": is_faulted(&conn) && since_fault_ms >= 3 * opts.timeout_ms}));
+        for lop in late.drain(..) {
+            tr(json!({"ev": "api_cancel", "op": lop.op.id, "polls": lop.op.polls}));
+            with_label(lop.ep, || drop(lop));
+        }
+    }
 
     // ---- teardown: drop everything in a random order; both dispatchers must finish successfully
     for lop in ops.drain(..) {
@@ -520,6 +652,7 @@ pub async fn scenario(seed: u64, opts: &LifeOpts) {
         }
     }
     tr(json!({"ev": "all_dropped"}));
+    conn.timeout_ms = opts.timeout_ms;
     conn.teardown().await;
     // reclamation: every port number is free again, no background task is left
     for (i, a) in allocs.iter().enumerate() {
@@ -538,4 +671,5 @@ pub async fn scenario(seed: u64, opts: &LifeOpts) {
     }
     let alive = tokio::runtime::Handle::current().metrics().num_alive_tasks();
     tr(json!({"ev": "tasks", "alive": alive}));
+    (conn.ab.emitted(), conn.ba.emitted())
 }
